@@ -418,6 +418,63 @@ func runC12(c *engine.Ctx) {
 				Msg: fmt.Sprintf("rejected stream (%s -> %s) changed the stored state on %s:\nbefore:\n%s\nafter:\n%s", mc.name, r.Short(), mc.kind, before, after)})
 		}
 	})
+	// ---- how the declared decoded length is written ----
+	// A declaration made of decimal digits means that decimal number (leading zeros or not):
+	// if it differs from the stream's length the upload must be refused. Other spellings may be
+	// refused or understood, but an accepted upload must be the payload.
+	{
+		p8 := mkPayload(8)
+		e8 := drv.EncodeChunked(p8, []int{3, 5})
+		forms := []string{"8", "08", "010", "0010", "0x8", "0X8", "0o10", "0b1000", "1e1", "8.0", " 8", "+8", "-8", "９"}
+		type dcase struct {
+			kind drv.Kind
+			form string
+		}
+		var dcs []dcase
+		for _, k := range kinds {
+			for _, f := range forms {
+				dcs = append(dcs, dcase{k, f})
+			}
+		}
+		engine.ParallelFor(len(dcs), func(_, i int) {
+			dc := dcs[i]
+			w := newW(dc.kind)
+			defer w.Close()
+			w.Do(drv.Req{Method: "PUT", Path: "/aaa/k", Body: []byte("previous-content")})
+			before := w.Snapshot(drv.SnapOpts{NoRaw: true})
+			r := w.Do(drv.Req{Method: "PUT", Path: "/aaa/k", Body: e8, Header: drv.H("X-Amz-Content-Sha256", "STREAMING-AWS4-HMAC-SHA256-PAYLOAD", "X-Amz-Decoded-Content-Length", dc.form)})
+			c.Add(0, 1, 1, 1)
+			digits := dc.form != ""
+			for _, ch := range dc.form {
+				if ch < '0' || ch > '9' {
+					digits = false
+				}
+			}
+			mustReject := false
+			if digits {
+				v, _ := strconv.Atoi(dc.form)
+				mustReject = v != len(p8)
+			}
+			report := func(field, msg string) {
+				c.Report(&engine.Violation{Sig: sig("C12", backendClass(dc.kind), "declared-length-form", field), World: string(dc.kind), History: []string{"X-Amz-Decoded-Content-Length: " + strconv.Quote(dc.form) + " for an 8-byte stream"},
+					Msg: fmt.Sprintf("X-Amz-Decoded-Content-Length %q for a stream of 8 bytes on %s: %s", dc.form, dc.kind, msg)})
+			}
+			switch {
+			case r.Panic != "":
+				report("panic@"+drv.PanicFrame(r.Panic), firstLine(r.Panic))
+			case r.Status < 300 && mustReject:
+				report("accepted-wrong-decimal", "accepted with "+r.Short()+" although the declaration is the decimal number "+dc.form)
+			case r.Status < 300:
+				if v := w.Get("aaa", "k"); v.Status != 200 || !bytes.Equal(v.Body, p8) {
+					report("accepted-but-not-the-payload", "accepted, but GET answers "+v.String())
+				}
+			default:
+				if after := w.Snapshot(drv.SnapOpts{NoRaw: true}); after != before {
+					report("state-changed", "refused with "+r.Short()+" but the stored state changed")
+				}
+			}
+		})
+	}
 	c.AddSample(map[string]interface{}{"seam": "handler", "payload_bytes": 70000, "chunk": 32769, "fragmentation": "every-1000"})
 }
 
